@@ -35,7 +35,7 @@ def generated_workload(params, nticks):
 
 
 def sub(job, hashseed):
-    env = dict(os.environ, PYTHONHASHSEED=str(hashseed), PYTHONPATH=f'/repo:{C.VERIF}')
+    env = dict(os.environ, PYTHONHASHSEED=str(hashseed), PYTHONPATH=f'{C.REPO}:{C.VERIF}')
     p = subprocess.run([C.PY, '-m', 'harness.detrun'], input=json.dumps(job), capture_output=True, text=True, env=env,
                        cwd=str(C.VERIF), timeout=600)
     if p.returncode != 0:
